@@ -83,7 +83,7 @@ CLAIMED = {
         ref='DESIGN.md section 4 C18'),
     "C13": dict(
         technique="Coq proof over an executable model of walk_tree/_traverse_tree/printer + model/implementation correspondence",
-        text=("coq/props/C13.v: whenever visualize completes (any archive, any trusted list, any show mode) what reaches the printer is the root row followed by rows each at most one level "
+        text=("coq/props/C13.v (13 theorems): TOTALITY ON DUMPS (first clause) as a theorem on the C05 fragment: for every value in c05_guard (containers, dict family, slices, names, arrays, sparse, dtype, masked, RNGs, partial; arbitrary sharing), every load environment of that archive and EVERY trusted list, the row generator, show=all and show=untrusted complete, show=untrusted prints exactly the rows that are not fully safe, and show=trusted completes when every row below the root is self-safe (C13_total_on_dumps_partial; proof: the tree built from a dumped state is ranked -- every object above its parts -- hence acyclic with bounded reference depth, every reference resolves, the audit of every node completes independently of fuel and call stack, the walk yields a safe-closed pre-order forest, which _traverse_tree accepts whenever the hidden rows are exactly the fully safe ones); for show=trusted it is refuted with a computed witness ([functools.partial(np.add, 1)]: finding D24). AGREEMENT WITH THE AUDIT: whenever visualize completes (any archive, any trusted list, any show mode) what reaches the printer is the root row followed by rows each at most one level "
               "deeper than the previous one, and only rows the filter admits; every row carries the audit's own verdicts for its node (is_self_safe, and fully-safe iff the graph audit "
               "below it reports nothing); the root row is fully safe iff get_untrusted_types is empty for that trust setting; a row is tagged [UNSAFE] iff its own type is untrusted; "
               "a generic node that is not self-safe is never fully safe. The model (lazy row stream, key_types special case, SKIPPED kinds from the snapshot, Ref/cycle unrolling, the plain-text printer) "
